@@ -4,6 +4,7 @@ import (
 	"bytes"
 	"errors"
 	"fmt"
+	"sort"
 
 	"github.com/filecoin-project/go-f3/certs"
 	"github.com/filecoin-project/go-f3/certstore"
@@ -21,12 +22,13 @@ type subscriber struct {
 
 type c09 struct {
 	*env
-	ds   *simds.DS
-	cs   *certstore.Store
-	m    *model
-	subs []*subscriber
-	base *gpbft.TipSet
+	ds      *simds.DS
+	cs      *certstore.Store
+	m       *model
+	subs    []*subscriber
+	base    *gpbft.TipSet
 	initial gpbft.PowerEntries
+	long    bool // the history is long: comparisons are sampled
 }
 
 func (s *c09) latestHead() *gpbft.TipSet {
@@ -146,7 +148,125 @@ func (s *c09) firstChoice() uint64 {
 	}
 }
 
+// bulkPhase appends a long run of certificates (more than any buffer or batch size one would
+// pick for a range read) and switches the comparisons to the sampled form.
+func (s *c09) bulkPhase(n int) {
+	c, m, cs, g := s.c, s.m, s.cs, s.gen
+	s.long = true
+	for i := 0; i < n && s.viol == nil; i++ {
+		next := m.next()
+		cur := m.tables[len(m.tables)-1]
+		nt := cur
+		if c.Chance(40) {
+			nt = g.Evolve(cur)
+		}
+		cert := g.Cert(next, g.Chain(s.latestHead(), next, 1), cur, nt)
+		if err := cs.Put(bg, cert); err != nil {
+			s.fail("valid_put_rejected", "put", "Put of the immediate successor %d was rejected: %v", next, err)
+			return
+		}
+		m.certs = append(m.certs, cert)
+		m.tables = append(m.tables, nt)
+		for _, sb := range s.subs {
+			sb.pending = cert
+		}
+	}
+	s.r.Probe("long_history")
+	s.r.Tracef("bulk: %d certificates appended, store holds %d", n, len(m.certs))
+	s.compareAll("after a long run of puts")
+}
+
+// compareSampled is compareAll for long histories: latest, the whole range in one read, some
+// sub-ranges and single reads, and the power tables at the edges, around every checkpoint
+// multiple and at random instances.
+func (s *c09) compareSampled(when string) {
+	c, m, cs := s.c, s.m, s.cs
+	n := len(m.certs)
+	bad := func(format string, args ...any) {
+		s.fail("state_mismatch", "long", "%s (history of %d certificates from %d): %s", when, n, m.first, fmt.Sprintf(format, args...))
+	}
+	l := cs.Latest()
+	if (l == nil) != (n == 0) || l != nil && !bytes.Equal(certgen.CertBytes(l), certgen.CertBytes(m.certs[n-1])) {
+		bad("Latest is not the last certificate put")
+		return
+	}
+	checkRange := func(a, b int) bool { // indices, inclusive, b < n
+		rng, err := cs.GetRange(bg, m.first+uint64(a), m.first+uint64(b))
+		if err != nil || len(rng) != b-a+1 {
+			bad("GetRange(%d,%d) over stored certificates returned %d certificates and error %v", m.first+uint64(a), m.first+uint64(b), len(rng), err)
+			return false
+		}
+		for i := range rng {
+			if !bytes.Equal(certgen.CertBytes(&rng[i]), certgen.CertBytes(m.certs[a+i])) {
+				bad("GetRange(%d,%d): element %d differs from the certificate put at %d", m.first+uint64(a), m.first+uint64(b), i, m.first+uint64(a+i))
+				return false
+			}
+		}
+		return true
+	}
+	if n > 0 {
+		if !checkRange(0, n-1) {
+			return
+		}
+		for k := 0; k < 4; k++ {
+			a := c.Intn(n)
+			if !checkRange(a, a+c.Intn(n-a)) {
+				return
+			}
+		}
+		for k := 0; k < 8; k++ {
+			j := c.Intn(n)
+			got, err := cs.Get(bg, m.first+uint64(j))
+			if err != nil || !bytes.Equal(certgen.CertBytes(got), certgen.CertBytes(m.certs[j])) {
+				bad("Get(%d) -> err %v or wrong certificate", m.first+uint64(j), err)
+				return
+			}
+		}
+	}
+	idx := map[int]bool{0: true, n: true}
+	if n > 0 {
+		idx[n-1] = true
+	}
+	for _, f := range []uint64{s.freq, 1440} {
+		if f == 0 {
+			continue
+		}
+		for inst := (m.first/f + 1) * f; inst <= m.next(); inst += f {
+			for d := -1; d <= 1; d++ {
+				if j := int(inst-m.first) + d; j >= 0 && j <= n {
+					idx[j] = true
+				}
+			}
+			if len(idx) > 60 {
+				break
+			}
+		}
+	}
+	for k := 0; k < 12; k++ {
+		idx[c.Intn(n+1)] = true
+	}
+	js := make([]int, 0, len(idx))
+	for j := range idx {
+		js = append(js, j)
+	}
+	sort.Ints(js)
+	for _, j := range js {
+		t, err := cs.GetPowerTable(bg, m.first+uint64(j))
+		if err != nil || !tablesEqual(t, m.tables[j]) {
+			bad("GetPowerTable(%d) -> err %v or not the initial table with all earlier deltas applied", m.first+uint64(j), err)
+			return
+		}
+	}
+	if _, err := cs.GetPowerTable(bg, m.next()+1); err == nil {
+		bad("GetPowerTable(%d) beyond the next instance succeeded", m.next()+1)
+	}
+}
+
 func (s *c09) compareAll(when string) {
+	if s.long {
+		s.compareSampled(when)
+		return
+	}
 	got, want := observe(s.cs), s.m.obs()
 	if !got.equal(want) {
 		s.fail("state_mismatch", "observe", "%s: store shows {%s}, reference model {%s}", when, got, want)
@@ -418,9 +538,16 @@ func runC09(prop, tier string, c *kernel.Chooser, r *kernel.Recorder) *kernel.Vi
 		s.step()
 		r.Steps++
 	}
+	if bulkP := map[string]int{"quick": 25, "thorough": 60}[tier]; s.viol == nil && s.cs != nil && c.Chance(bulkP) {
+		n := 1030 + c.Intn(1200)
+		if tier == "thorough" && c.Chance(300) {
+			n = 4100 + c.Intn(4500)
+		}
+		s.bulkPhase(n)
+	}
 	if s.viol == nil && s.cs != nil && c.Chance(450) {
 		r.Fault("concurrent_readers_and_writer")
-		s.concurrentPhase(20 + c.Intn(80))
+		s.concurrentPhase(2000)
 	}
 	if s.viol == nil && s.cs != nil {
 		s.compareAll("end of history")
